@@ -225,6 +225,8 @@ pub fn to_string(value: f64) -> String {
 }
 
 pub fn from_hex(s: &str) -> Option<f64> {
+    // float.fromhex() ignores surrounding (C isspace) whitespace
+    let s = s.trim_matches(|c| matches!(c, ' ' | '\t' | '\n' | '\x0b' | '\x0c' | '\r'));
     if let Ok(f) = hexf_parse::parse_hexf64(s, false) {
         return Some(f);
     }
